@@ -105,6 +105,8 @@ package yubiagent
 //@   let w0 = old(calls(yubiagent.write))
 //@   let r0 = old(calls(yubiagent.read))
 //@   ensures cfree(c)
+//@   ensures [the-exchange-is-one-critical-section-of-the-connection-lock] calls(Mutex.Lock) == old(calls(Mutex.Lock)) + 1 && arg(Mutex.Lock, old(calls(Mutex.Lock)), 0) == addrof(c.connLock) &&
+//@     calls(Mutex.Unlock) == old(calls(Mutex.Unlock)) + 1
 //@   ensures [one-request-frame] calls(yubiagent.write) == w0 + 1 && pl(arg(yubiagent.write, w0, 0)) == pl(c.conn) && arg(yubiagent.write, w0, 1) == req
 //@   ensures [write-failure-surfaces] ret(yubiagent.write, w0, 0) != nil ==> (resp == nil && err == ret(yubiagent.write, w0, 0) && calls(yubiagent.read) == r0)
 //@   ensures [reply-is-the-next-frame] ret(yubiagent.write, w0, 0) == nil ==> (calls(yubiagent.read) == r0 + 1 && pl(arg(yubiagent.read, r0, 0)) == pl(c.conn) &&
